@@ -79,4 +79,173 @@ theorem dispatchOneMain_spec {c : Cfg} (hc : CfgOK c) {t0 : Nat} {s : St} (h : I
     obtain ⟨x, y⟩ := hstab1 b d
     exact (hd.exh_stable x y).2.2
 
+/-- What `while self.dispatch_one_batch(iterator): pass` guarantees. -/
+structure SLSpec (c : Cfg) (t0 : Nat) (fuel : Nat) (s s' : St) : Prop where
+  inv : Inv c t0 s'
+  later : Later c s s'
+  hung : s'.hung = s.hung
+  sched_le : s'.sched.length ≤ s.sched.length
+  exh : work s + 2 ≤ fuel → s'.aborting = false → s'.hung = false →
+    s'.ready = [] ∧ (s'.srcDead = true ∨ s'.preLeft = some 0)
+
+theorem startLoop_spec {c : Cfg} (hc : CfgOK c) {t0 : Nat} : ∀ (fuel : Nat) (s : St), Inv c t0 s →
+    SLSpec c t0 fuel s (startLoop c fuel s) := by
+  intro fuel
+  induction fuel with
+  | zero =>
+    intro s h
+    unfold startLoop
+    refine ⟨h.frame rfl rfl rfl rfl rfl rfl rfl rfl rfl rfl rfl rfl rfl ⟨rfl, rfl, rfl, rfl, rfl, rfl, rfl, rfl, id⟩,
+      Later.of_same rfl rfl rfl (Nat.le_refl _) rfl rfl rfl rfl rfl rfl rfl rfl rfl
+        ⟨rfl, rfl, rfl, rfl, rfl, rfl, rfl, rfl, id⟩, rfl, Nat.le_refl _, ?_⟩
+    intro hf; omega
+  | succ fuel ih =>
+    intro s h
+    unfold startLoop
+    have hd := dispatchOneMain_spec hc h
+    generalize dispatchOneMain c s = res at hd
+    obtain ⟨s1, more⟩ := res
+    simp only at hd ⊢
+    by_cases hcont : (more && !s1.hung) = true
+    · rw [if_pos hcont]
+      simp only [Bool.and_eq_true, Bool.not_eq_eq_eq_not, Bool.not_true] at hcont
+      obtain ⟨hm, hh⟩ := hcont
+      have hi := ih s1 hd.inv
+      refine ⟨hi.inv, hd.later.trans hi.later, hi.hung.trans hd.hung, Nat.le_trans hi.sched_le hd.sched_le, ?_⟩
+      intro hf ha hhu
+      have ha1 : s1.aborting = false := by
+        cases hx : s1.aborting with
+        | false => rfl
+        | true => rw [hi.later.frame.abort_mono hx] at ha; simp at ha
+      have := hd.work_lt hm ha1
+      exact hi.exh (by omega) ha hhu
+    · rw [if_neg hcont]
+      refine ⟨hd.inv, hd.later, hd.hung, hd.sched_le, ?_⟩
+      intro _ ha hhu
+      cases more with
+      | false => exact hd.exh rfl ha hhu
+      | true => simp [hhu] at hcont
+
+/-- What `Parallel._start` guarantees. `s0` is the state with `_iterating` already cleared. -/
+structure STSpec (c : Cfg) (t0 : Nat) (fuel : Nat) (s s' : St) : Prop where
+  inv : Inv c t0 s'
+  later : Later c { s with iterating := false } s'
+  hung : s'.hung = s.hung
+  sched_le : s'.sched.length ≤ s.sched.length
+  post : work s + 2 ≤ fuel → s.hung = false →
+    (c.pdMode = 1 ∨ (s.origAlive = true ∧ ∃ q, s.preLeft = some q ∧ 1 ≤ q)) → Post s'
+
+theorem start_spec {c : Cfg} (hc : CfgOK c) {t0 : Nat} {fuel : Nat} {s : St}
+    (h : Inv c t0 { s with iterating := false }) : STSpec c t0 fuel s (start c fuel s) := by
+  unfold start
+  simp only
+  have hd := dispatchOneMain_spec hc h
+  generalize dispatchOneMain c { s with iterating := false } = res at hd
+  obtain ⟨s1, more⟩ := res
+  simp only at hd ⊢
+  by_cases hh1 : s1.hung = true
+  · rw [if_pos hh1]
+    refine ⟨hd.inv, hd.later, hd.hung, hd.sched_le, ?_⟩
+    intro _ hh _
+    have : s1.hung = false := hd.hung.trans hh
+    rw [hh1] at this; simp at this
+  rw [if_neg hh1]
+  -- `self._iterating = self._original_iterator is not None`
+  have h2 : ∃ s2, (if more = true then { s1 with iterating := s1.origAlive } else s1) = s2 ∧ Inv c t0 s2 ∧
+      Later c s1 s2 ∧ s2.hung = s1.hung ∧ s2.sched = s1.sched ∧ work s2 = work s1 ∧ s2.preLeft = s1.preLeft ∧
+      s2.aborting = s1.aborting ∧ s2.ready = s1.ready ∧ s2.srcDead = s1.srcDead ∧
+      (more = true → s2.iterating = s2.origAlive) ∧ (more = false → s2 = s1) := by
+    cases more with
+    | false => exact ⟨s1, rfl, hd.inv, Later.refl c s1, rfl, rfl, rfl, rfl, rfl, rfl, rfl, by simp, fun _ => rfl⟩
+    | true =>
+      refine ⟨_, rfl, ?_, ?_, rfl, rfl, rfl, rfl, rfl, rfl, rfl, fun _ => rfl, by simp⟩
+      · refine ⟨InvT_frame hd.inv.T rfl rfl rfl rfl rfl rfl rfl rfl rfl,
+          InvS_frame hd.inv.S rfl rfl rfl rfl rfl rfl rfl rfl rfl, ?_, ?_⟩
+        · exact ⟨fun hi => hi, hd.inv.L.orig_mode, hd.inv.L.pre_mode, hd.inv.L.orig_exh⟩
+        · intro ha _; exact hd.pend rfl ha
+      · have hg : ∀ j, getTrk { s1 with iterating := s1.origAlive } j = getTrk s1 j := fun _ => rfl
+        refine ⟨⟨rfl, rfl, rfl, rfl, rfl, rfl, rfl, rfl, id⟩, Nat.le_refl _, fun j _ => ⟨rfl, rfl, rfl⟩,
+          fun j _ _ => ⟨rfl, rfl⟩, fun _ => Nat.le_refl _, fun _ _ => rfl, fun _ => ⟨[], by simp⟩, ?_, rfl, rfl,
+          Nat.le_refl _, Nat.le_refl _, Nat.le_refl _, fun _ => rfl, fun a b => ⟨a, b⟩⟩
+        intro hp ha hi
+        have hi1 : s1.iterating = false := by
+          have := hd.inv.L.iter_orig
+          cases hx : s1.iterating with
+          | false => rfl
+          | true => have := this hx; simp only at hi; rw [this] at hi; simp at hi
+        exact hp ha hi1
+  obtain ⟨s2, he2, hi2, hl2, hh2, hs2, hw2, hp2, ha2, hr2, hdd2, hio2, hsame2⟩ := h2
+  rw [he2]
+  have hl := startLoop_spec hc fuel s2 hi2
+  generalize startLoop c fuel s2 = s3 at hl
+  have hw0 : work { s with iterating := false } = work s := rfl
+  -- the `Post` statement for `s3`
+  have hpost3 : work s + 2 ≤ fuel → s.hung = false →
+      (c.pdMode = 1 ∨ (s.origAlive = true ∧ ∃ q, s.preLeft = some q ∧ 1 ≤ q)) →
+      s3.aborting = false → (c.pdMode = 1 ∨ s3.iterating = false) → s3.ready = [] ∧ s3.srcDead = true := by
+    intro hf hhu hmode ha3 hit3
+    have hh3 : s3.hung = false := by rw [hl.hung, hh2, hd.hung]; exact hhu
+    have hwl : work s2 + 2 ≤ fuel := by
+      have := hd.later.work_le
+      rw [hw2]; omega
+    by_cases hm1 : c.pdMode = 1
+    · obtain ⟨x, y⟩ := hl.exh hwl ha3 hh3
+      refine ⟨x, ?_⟩
+      rcases y with y | y
+      · exact y
+      · rw [hl.inv.L.pre_mode hm1] at y; simp at y
+    · rcases hmode with hmode | ⟨hor, q, hq, hq1⟩
+      · exact absurd hmode hm1
+      rcases hit3 with hit3 | hit3
+      · exact absurd hit3 hm1
+      cases more with
+      | true =>
+        have hio3 := hl.later.io (hio2 rfl)
+        exact hl.inv.L.orig_exh hm1 (by rw [← hio3]; exact hit3) ha3
+      | false =>
+        have e21 := hsame2 rfl
+        subst e21
+        have ha1 : s2.aborting = false := by
+          cases hx : s2.aborting with
+          | false => rfl
+          | true => rw [hl.later.frame.abort_mono hx] at ha3; simp at ha3
+        have hh1' : s2.hung = false := by simpa using hh1
+        obtain ⟨x, y⟩ := hd.exh rfl ha1 hh1'
+        have hpl : s2.preLeft = some q := (hd.pre_nomore rfl).trans hq
+        have yd : s2.srcDead = true := by
+          rcases y with y | y
+          · exact y
+          · rw [hpl] at y; simp only [Option.some.injEq] at y; omega
+        exact hl.later.exh x yd
+  by_cases hh3 : s3.hung = true
+  · rw [if_pos hh3]
+    refine ⟨hl.inv, (hd.later.trans hl2).trans hl.later, by rw [hl.hung, hh2, hd.hung],
+      Nat.le_trans hl.sched_le (by rw [hs2]; exact hd.sched_le), ?_⟩
+    intro _ hhu _
+    have : s3.hung = false := by rw [hl.hung, hh2, hd.hung]; exact hhu
+    rw [hh3] at this; simp at this
+  rw [if_neg hh3]
+  by_cases hm1 : (c.pdMode == 1) = true
+  · rw [if_pos hm1]
+    have hm1' : c.pdMode = 1 := by simpa using hm1
+    have hit3 : s3.iterating = false := by
+      cases hx : s3.iterating with
+      | false => rfl
+      | true => exact absurd hm1' (hl.inv.L.orig_mode (hl.inv.L.iter_orig hx))
+    have hi4 : Inv c t0 { s3 with iterating := false } :=
+      hl.inv.frame rfl rfl rfl rfl rfl rfl rfl rfl rfl rfl hit3.symm rfl rfl
+        ⟨rfl, rfl, rfl, rfl, rfl, rfl, rfl, rfl, id⟩
+    have hl4 : Later c s3 { s3 with iterating := false } :=
+      Later.of_same rfl rfl rfl (Nat.le_refl _) rfl rfl rfl rfl hit3.symm rfl rfl rfl rfl
+        ⟨rfl, rfl, rfl, rfl, rfl, rfl, rfl, rfl, id⟩
+    refine ⟨hi4, ((hd.later.trans hl2).trans hl.later).trans hl4, by show s3.hung = _; rw [hl.hung, hh2, hd.hung],
+      Nat.le_trans hl.sched_le (by rw [hs2]; exact hd.sched_le), ?_⟩
+    intro hf hhu hmode ha _
+    exact hpost3 hf hhu hmode ha (Or.inl hm1')
+  · rw [if_neg hm1]
+    refine ⟨hl.inv, (hd.later.trans hl2).trans hl.later, by rw [hl.hung, hh2, hd.hung],
+      Nat.le_trans hl.sched_le (by rw [hs2]; exact hd.sched_le), ?_⟩
+    intro hf hhu hmode ha hit
+    exact hpost3 hf hhu hmode ha (Or.inr hit)
+
 end JoblibModel.ParallelProto
